@@ -72,6 +72,7 @@ type putSpec struct {
 	K2    int    `json:"k2,omitempty"` // second failing event, -1/0 with V2=="" : none
 	V2    string `json:"v2,omitempty"`
 	Stage string `json:"stage,omitempty"` // hook: closed-temp | renamed
+	N     int    `json:"n,omitempty"`     // crash: bytes of Write event K that still reach the disk (torn write); fail/short-write: bytes forwarded
 }
 
 type tamperSpec struct {
@@ -421,12 +422,18 @@ func (h *history) put(ps putSpec) (*violation, error) {
 	case "clean", "hook":
 	case "crash":
 		plan = faultx.CrashAt(ps.K)
+		if ps.N > 0 {
+			plan = faultx.CrashInWrite(ps.K, ps.N)
+		}
 	case "fail":
 		v, ok := variantByName(ps.V)
 		if !ok {
 			return nil, fmt.Errorf("bad variant %q", ps.V)
 		}
 		plan = faultx.FailAt(ps.K, v)
+		if ps.N > 0 && v == faultx.VarShortWrite {
+			plan = faultx.ShortWriteAt(ps.K, ps.N)
+		}
 		if ps.V2 != "" {
 			v2, ok := variantByName(ps.V2)
 			if !ok {
@@ -484,23 +491,42 @@ func (h *history) put(ps putSpec) (*violation, error) {
 	h.lastErr = perr
 	h.lastEvents = fb.Log()
 	disturbed := fb.Disturbed()
-	if ps.Mode == "hook" && !hookFired && perr == nil && !h.st.tampered && !h.st.mustHit {
-		// the store reached no atomic close although it wrote an entry: the hook is gone
-		return nil, fmt.Errorf("atomic close hook stage %q was never reached", ps.Stage)
+	if ps.Mode == "hook" {
+		// whether the store uses an atomic rename at all is a mechanism, not the property: if
+		// the stage is never reached this history is just a clean store
+		if hookFired {
+			evid.R().Class("hook-stage-reached:" + ps.Stage)
+		} else {
+			evid.R().Class("hook-stage-not-reached:" + ps.Stage)
+		}
 	}
 	if disturbed {
 		h.st.disturbed = true
 	}
 	h.st.mustHit = perr == nil && !disturbed && !h.st.tampered
 	h.trace = append(h.trace, fmt.Sprintf("store(%s) -> err=%v disturbed=%v events=%d", describePut(ps), perr != nil, disturbed, len(h.lastEvents)))
+	if viol == nil && perr != nil && !disturbed && !h.st.tampered {
+		// a healthy store of the same module on a never-tampered directory must succeed:
+		// "a later store of the same module repairs the entry"
+		if !h.st.disturbed {
+			return nil, fmt.Errorf("undisturbed store on an undisturbed directory failed: %w", perr)
+		}
+		viol = &violation{"store-did-not-repair", "a later store of the same module (no fault injected, nothing tampered) fails instead of repairing the entry left by the failed/interrupted store: " + firstLine(perr.Error())}
+	}
 	return viol, nil
 }
 
 func describePut(ps putSpec) string {
 	switch ps.Mode {
 	case "crash":
+		if ps.N > 0 {
+			return fmt.Sprintf("crash inside write event %d after %d bytes", ps.K, ps.N)
+		}
 		return fmt.Sprintf("crash at event %d", ps.K)
 	case "fail":
+		if ps.N > 0 {
+			return fmt.Sprintf("%s at event %d after %d bytes", ps.V, ps.K, ps.N)
+		}
 		if ps.V2 != "" {
 			return fmt.Sprintf("%s at event %d and %s at event %d", ps.V, ps.K, ps.V2, ps.K2)
 		}
@@ -687,6 +713,7 @@ type caseStats struct {
 	faultPositions   int
 	faultRuns        int
 	pairRuns         int
+	tornWrites       int
 	tamperings       int
 	copyPhase        bool
 	repairedAfterTam int
@@ -866,6 +893,28 @@ func sweepCase(ctx context.Context, c c09Case, st *caseStats, fail func(key, msg
 			r.Class("history:fault(" + events[k].KindS + "/" + v.String() + ")+restore/" + layout)
 		}
 	}
+	// (2b) torn writes: a crash INSIDE write event k after n of its bytes reached the disk, and a
+	// short write of n bytes, each followed by a clean store
+	budget := 200
+	if r.Thorough() {
+		budget = 400
+	}
+	for _, cut := range tornCuts(c, events, budget) {
+		st.tornWrites++
+		goOn, _, err := run([]step{{Put: &putSpec{Mode: "crash", K: cut.k, N: cut.n}}, cleanPut()})
+		if err != nil || !goOn {
+			return err
+		}
+		r.Class("history:crash-inside-write+restore/" + layout)
+		if cut.structural {
+			st.faultRuns++
+			goOn, _, err := run([]step{{Put: &putSpec{Mode: "fail", K: cut.k, V: faultx.VarShortWrite.String(), N: cut.n}}, cleanPut()})
+			if err != nil || !goOn {
+				return err
+			}
+			r.Class("history:short-write-at-cut+restore/" + layout)
+		}
+	}
 	// pairs
 	type pair struct{ a, b int }
 	var pairs []pair
@@ -931,14 +980,77 @@ func sweepCase(ctx context.Context, c c09Case, st *caseStats, fail func(key, msg
 	return nil
 }
 
+type tornCut struct {
+	k, n       int
+	structural bool
+}
+
+// tornCuts chooses the byte offsets at which a write is torn. Always, for every Write event: the
+// first byte, the last byte and one drawn offset. Then, within the budget and latest write first
+// (the writes closest to the commit point are where a torn write matters): both sides of every
+// line boundary of the written data (when the data was kept, i.e. <= 4 kB; the cut right after a
+// newline, a prefix of complete lines, is "structural" and also run as a short write), and then
+// EVERY remaining byte offset of the writes of at most 2 kB.
+func tornCuts(c c09Case, events []faultx.Event, budget int) []tornCut {
+	var out []tornCut
+	seen := map[[2]int]bool{}
+	add := func(k, n int, structural bool) bool {
+		if n <= 0 || n >= events[k].Len || seen[[2]int{k, n}] {
+			return false
+		}
+		seen[[2]int{k, n}] = true
+		out = append(out, tornCut{k, n, structural})
+		return true
+	}
+	var writes []int
+	for k, e := range events {
+		if e.Kind != faultx.KindWrite || e.Len < 2 {
+			continue
+		}
+		writes = append(writes, k)
+		add(k, 1, false)
+		add(k, e.Len-1, false)
+		add(k, 1+c.draw(k)%(e.Len-1), false)
+	}
+	for i := len(writes) - 1; i >= 0 && budget > 0; i-- {
+		k := writes[i]
+		for j, b := range events[k].Data {
+			if b != '\n' || budget <= 0 {
+				continue
+			}
+			if add(k, j+1, true) {
+				budget -= 2
+			}
+			if add(k, j, false) {
+				budget--
+			}
+			if add(k, j+2, false) {
+				budget--
+			}
+		}
+	}
+	for i := len(writes) - 1; i >= 0 && budget > 0; i-- {
+		k := writes[i]
+		if events[k].Len > 2048 {
+			continue
+		}
+		for n := 1; n < events[k].Len && budget > 0; n++ {
+			if add(k, n, false) {
+				budget--
+			}
+		}
+	}
+	return out
+}
+
 func mustJSON(v any) string { b, _ := json.Marshal(v); return string(b) }
 
-var sumCrash, sumFault, sumFaultRuns, sumPairs, sumTamper int
+var sumCrash, sumFault, sumFaultRuns, sumPairs, sumTamper, sumTorn int
 
 func TestStoreHistories(t *testing.T) {
 	r := evid.R()
 	ctx := context.Background()
-	r.Check(t, r.Scale(64, 560), 1, func(t *rapid.T) {
+	r.Check(t, r.Scale(40, 336), 1, func(t *rapid.T) {
 		c := genC09Case(t)
 		var st caseStats
 		err := sweepCase(ctx, c, &st, func(key, msg string, cc c09Case) bool { return r.Fail(t, key, msg, cc) })
@@ -950,6 +1062,7 @@ func TestStoreHistories(t *testing.T) {
 		sumFaultRuns += st.faultRuns
 		sumPairs += st.pairRuns
 		sumTamper += st.tamperings
+		sumTorn += st.tornWrites
 		layout := "layout:dir"
 		if c.Tar {
 			layout = "layout:tar"
@@ -984,6 +1097,7 @@ func TestStoreHistories(t *testing.T) {
 	r.Extra("single_fault_runs", sumFaultRuns)
 	r.Extra("fault_pair_runs", sumPairs)
 	r.Extra("tamperings", sumTamper)
+	r.Extra("torn_write_positions_enumerated", sumTorn)
 }
 
 // TestReplay replays a saved case through the oracle only: the recorded history if there is one,
